@@ -368,8 +368,15 @@ def check_forward_refs(idx: Index, rep: Report) -> None:
             if pol:
                 continue
             atoms = t.values if isinstance(t, ast.BoolOp) and isinstance(t.op, ast.And) else [t]
-            has_idx = any(isinstance(a, ast.Compare) and isinstance(a.ops[0], ast.In) and unparse(a.left) == key and "forward_ssa_references" in unparse(a.comparators[0]) for a in atoms)
-            others_ok = all((isinstance(a, ast.Compare) and isinstance(a.ops[0], ast.In) and "forward_ssa_references" in unparse(a.comparators[0])) for a in atoms)
+            base_t = unparse(st.targets[0].value)  # type: ignore[attr-defined]
+            base_r = resolved_text(cfg, st.targets[0].value, cfg.node_of(st))  # type: ignore[attr-defined]
+
+            def is_table(x: ast.AST) -> bool:
+                tx = unparse(x)
+                return "forward_ssa_references" in tx or tx == base_t or "forward_ssa_references" in resolved_text(cfg, x, cfg.node_of(st))
+
+            has_idx = any(isinstance(a, ast.Compare) and isinstance(a.ops[0], ast.In) and unparse(a.left) == key and is_table(a.comparators[0]) for a in atoms)
+            others_ok = all((isinstance(a, ast.Compare) and isinstance(a.ops[0], ast.In) and is_table(a.comparators[0])) or unparse(a) in (f"{base_t} is not None", base_t) for a in atoms)
             if has_idx and others_ok:
                 ok = True
         if ok:
